@@ -144,6 +144,23 @@ def run(ctx):
     ctx.add_bounded('page-histories', 'all sequences (with repetition) of length <= 3 over 4 synthetic pages (0..3 lines, confident and unconfident lines, empty transcription) x carry_h_over x thresholds {None,0,.5,.98,inf}',
                     res['evaluations'], res['nontrivial'], True, res['samples'], fails,
                     rule='every history of the domain; non-trivial = at least two pages', clause='page result after any history equals its solo result')
+    # the recognition stage: one long-lived OCR engine processes the lines of successive pages (state must not leak)
+    from props import C07
+    eng_items = []
+    for hist in ([[500, 300]], [[318, 300, 289]], [[100], [100, 64]], [[120], [60]], [[320, 320, 320]]):
+        for widths in ((289, 300, 310), (100, 90), (64,), (318, 289, 300, 305), (120, 100, 60)):
+            for bs in (1, 2, 8):
+                eng_items.append((tuple(widths), bs, (False, False, False), tuple(tuple(x) for x in hist)))
+    res2 = bounded.pmap(C07._chunk, bounded.shard(eng_items, 16))
+    fails2 = []
+    if res2['failures']:
+        f = sorted(res2['failures'], key=lambda f: str(f['input']))[0]
+        fails2.append(Failure(sig('rt', 'BaseEngineLineOCR.process_lines', 'history-independence'),
+                              'lines of a page recognised after other pages on the same engine differ from the page alone: %s on %s' % (f['observed'], f['input']),
+                              function='BaseEngineLineOCR.process_lines', input=dict(f['input'], engine_history=True), observed=f['observed'], clause='history-independence'))
+    ctx.add_bounded('engine-histories', 'one stub-network OCR engine instance: 5 earlier page line-width lists x 5 pages x batch sizes {1,2,8}',
+                    res2['evaluations'], res2['evaluations'], True, res2['samples'], fails2, rule='every (history, page, batch size); all non-trivial',
+                    clause='recognition of a page after any history equals recognition of the page alone')
     bounded.close()
     ctx.trusted += ['A6: the decoder object and its LM are pure functions of their arguments (LMWrapper methods assign no attribute: checked by the frame scan)',
                     'module-level RNG reads in layout stages (random tie-breaks between lines with equal coordinates) are listed by the frame scan, not proved absent',
@@ -159,6 +176,9 @@ def replay(entry):
     from pero_ocr.core import layout
     from pero_ocr.document_ocr import page_parser as pp
     inp = entry.get('input') or {}
+    if inp.get('engine_history'):
+        from props import C07
+        return C07.replay(entry)
     if 'history' not in inp:
         print('replay: obligation %s has no concrete input; solver output:\n%s' % (entry.get('obligation'), entry.get('solver_output')))
         return 1
